@@ -120,13 +120,13 @@ Qed.
 (* ================================================================================================ *)
 Definition disp_eff (f : fault) (r : repo) (now : gtime) (id : string) (r' : repo) (x : res) : Prop :=
   match f with
-  | FBefore => r' = r /\ x = RErr EOther
+  | FBefore | FBeforeHook => r' = r /\ x = RErr EOther
   | FNone => r' = fst (step cfg_inmem r (ODispatch false now id)) /\ x = snd (step cfg_inmem r (ODispatch false now id))
   | FAfter => r' = fst (step cfg_inmem r (ODispatch false now id)) /\ x = RErr EOther
   end.
 Definition done_eff (f : fault) (r : repo) (now : gtime) (id : string) (e : option string) (r' : repo) (x : res) : Prop :=
   match f with
-  | FBefore => r' = r /\ x = RErr EOther
+  | FBefore | FBeforeHook => r' = r /\ x = RErr EOther
   | FNone => r' = fst (step cfg_inmem r (ODone false now id e)) /\ x = snd (step cfg_inmem r (ODone false now id e))
   | FAfter => r' = fst (step cfg_inmem r (ODone false now id e)) /\ x = RErr EOther
   end.
@@ -138,6 +138,7 @@ Proof.
   destruct (hstep_repo hc h (HDispatch hf now id) _ eq_refl) as [A B].
   destruct (hstep hc h (HDispatch hf now id)) as [h1 x1] eqn:E. cbn [fst snd] in A, B.
   destruct f; cbv beta in H; rewrite ?E in H; inv H; auto.
+  rewrite hook_dispatched_repo. auto.
 Qed.
 Lemma call_mark_done_eff f now id e h h' x :
   call_mark_done f now id e h = (h', x) -> done_eff f (hs_repo h) now id e (hs_repo h') x.
@@ -876,9 +877,9 @@ Proof.
   - right; left. exists op. split; [|split; auto].
     + destruct o; inv H; cbn; auto.
     + destruct o; inv H; cbn; auto.
-  - destruct f; unfold disp_eff in H1; destruct H1 as [E _]; [right; left | left; exact E | right; left];
+  - destruct f; unfold disp_eff in H1; destruct H1 as [E _]; [right; left | left; exact E | right; left | left; exact E];
       (exists (ODispatch false (sy_now s) (t_id t)); split; [|split; [|exact E]]; cbn; auto).
-  - destruct f; unfold disp_eff in H0; destruct H0 as [E _]; [right; left | left; exact E | right; left];
+  - destruct f; unfold disp_eff in H0; destruct H0 as [E _]; [right; left | left; exact E | right; left | left; exact E];
       (exists (ODispatch false (sy_now s) (t_id t)); split; [|split; [|exact E]]; cbn; auto).
   - assert (NL : ~ In id (live
         {| sy_h := h'; sy_now := sy_now s; sy_last := sy_last s; sy_err := sy_err s;
@@ -888,11 +889,11 @@ Proof.
     { pose proof (inv_nd_res s I) as N; pose proof (inv_acc_res s I) as AR; pose proof (inv_run_res s I) as RR.
       unf. rewrite H0 in *. cbn in *. inv N. rewrite !in_app_iff. intros [Hz|[Hz|Hz]]; auto.
       - apply (AR _ Hz); auto. - apply (RR _ Hz); auto. }
-    destruct f; unfold done_eff in H3; destruct H3 as [E _]; [right; right | left; exact E | right; right]; eauto 7.
+    destruct f; unfold done_eff in H3; destruct H3 as [E _]; [right; right | left; exact E | right; right | left; exact E]; eauto 7.
   - assert (NL : ~ In id (live (set_pc (set_h s h') pc'))).
     { pose proof (inv_pc s I) as P. rewrite H in P. intros Hl. apply (inv_live_ended s I id Hl).
       unfold ended. apply in_app_iff; auto. }
-    destruct f; unfold done_eff in H0; destruct H0 as [E _]; [right; right | left; exact E | right; right]; eauto 8.
+    destruct f; unfold done_eff in H0; destruct H0 as [E _]; [right; right | left; exact E | right; right | left; exact E]; eauto 8.
 Qed.
 
 Lemma done_lifecycle c n i e : lifecycle_op (ODone c n i e).
@@ -1457,7 +1458,8 @@ Proof.
     - rewrite Er, E1 in L.
       destruct (step_disp_origin _ _ _ _ _ W Lc L D) as (t & L0 & [->|(S & c & n & Eq & _)]); auto.
       assert (id = x) by congruence. subst id.
-      right. exists FAfter, hf, (RRes xr). split; [exact El | reflexivity]. }
+      right. exists FAfter, hf, (RRes xr). split; [exact El | reflexivity].
+    - left. congruence. }
   destruct H; unfold repo_of in *; unfold set_h, set_pc, set_sched, accept_task in *; cbn [sy_h hs_repo] in *;
     try (left; congruence).
   - (* user *)
